@@ -9,14 +9,18 @@ Proved here, for ALL field lists / choices:
     per-(tag, wire type) subsequences decode alike; corollary for the spec encoder's rank-sorted messages;
   * unknown fields (unknown tag, or known tag with a foreign wire type) are skipped in every message;
   * the framing accepts every BlobHeader size 1 … 65536 (holds since fix d60f5aa, DESIGN.md F5);
-  * `pbf_decode_spec_info_partial`: the Info submessage, bytes level, any rank, any unknown extras.
-The full `pbf_decode_spec` (∀ choices ∀ representable D: decodeFile (PbfSpec.encode ch D) = some D) is NOT
-proved in Lean (missing: per-kind canonical-fields lemmas for node/way/relation/dense under granularity and
-offset choices, string-table layout lemma `idx`, block splitting `cut`/`runs` induction); it is exercised
-by the correspondence only (real Reader = model decoder = D on every generated choice vector).
+  * `pbf_decode_spec`: the FULL clause — for every legal choice vector (`ChoicesOk`: any rank per message kind,
+    any well-formed unknown extras per message kind, granularity / date granularity positive int32, offsets up to
+    2^61 nanodegrees, plain or dense nodes, defaults written or omitted, version -1, indexdata, string-table padding
+    and duplicates, any block / group splitting) and every data set representable under it (`Representable`) within
+    the format limits (`Fits`: BlobHeader ≤ 64 KiB, Blob ≤ 32 MiB): `decodeFile (PbfSpec.encode ch D) = some D`.
+    Per message kind (Lemmas/PbfSpec*.lean): BlobHeader, Blob, HeaderBlock, HeaderBBox, PrimitiveBlock, StringTable,
+    PrimitiveGroup, Node, Way, Relation, Info, DenseNodes, DenseInfo.
 -/
 import Osmium.Lemmas.Pbf
 import Osmium.Model.PbfSpec
+import Osmium.Lemmas.PbfSpecFile
+import Osmium.Lemmas.PbfSpecDec
 
 namespace Osmium.Pbf
 
@@ -95,11 +99,10 @@ theorem decodeMsg_append_unknown {σ : Type} (step : σ → Field → Option σ)
 
 /-! ## the Info submessage as a spec-conformant producer may write it -/
 
-/-- `_partial` (of `pbf_decode_spec`): BYTES level, for the Info submessage: whatever rank the producer
-    orders the fields by and whatever unknown fields it adds, `decode_info` sees exactly the known fields
-    in canonical order.  Missing for the full theorem: the same for the other message kinds and the
-    composition over blocks (see the header comment). -/
-theorem pbf_decode_spec_info_partial (p : Params) (acc : InfoAcc) (rank : Nat × WireType → Nat)
+/-- BYTES level, for the Info submessage: whatever rank the producer orders the fields by and whatever unknown
+    fields it adds, `decode_info` sees exactly the known fields in canonical order (the instance of
+    `pbf_decode_arranged` below for one message kind; the full clause is `pbf_decode_spec`). -/
+theorem pbf_decode_spec_info (p : Params) (acc : InfoAcc) (rank : Nat × WireType → Nat)
     (fs extras : List Field) (hw : ∀ f ∈ fs ++ extras, f.WF) (he : ∀ e ∈ extras, infoKnown e = false) :
     decodeInfo p acc (encodeFields (sortByRank rank (fs ++ extras))) = decodeMsg (infoStep p) (acc, []) fs := by
   unfold decodeInfo
@@ -108,10 +111,10 @@ theorem pbf_decode_spec_info_partial (p : Params) (acc : InfoAcc) (rank : Nat ×
   rw [pbf_decode_any_rank_info, decodeMsg_append_unknown (infoStep p) infoKnown (infoStep_unknown p) _ fs extras he]
 
 /-- the same statement for the specification encoder's own `msg` (rank and extras from the choices) -/
-theorem pbf_decode_spec_info_msg_partial (p : Params) (acc : InfoAcc) (ch : PbfSpec.Choices) (fs : List Field)
+theorem pbf_decode_spec_info_msg (p : Params) (acc : InfoAcc) (ch : PbfSpec.Choices) (fs : List Field)
     (hw : ∀ f ∈ fs ++ ch.extras PbfSpec.kInfo, f.WF) (he : ∀ e ∈ ch.extras PbfSpec.kInfo, infoKnown e = false) :
     decodeInfo p acc (PbfSpec.msg ch PbfSpec.kInfo fs) = decodeMsg (infoStep p) (acc, []) fs :=
-  pbf_decode_spec_info_partial p acc _ fs _ hw he
+  pbf_decode_spec_info p acc _ fs _ hw he
 
 /-! ## framing -/
 
@@ -152,5 +155,97 @@ theorem pbf_framing_any_header_size (first : Bool) (hdr blob rest : Bytes)
    trigger, and headers up to 65 5xx bytes) is exercised on the real code by tools/props/c02_pbf.py
    (choices ix=150 … ix=65517; histogram hdrsize:* in the evidence); `PbfFraming.blobSize` compares with
    `"OSMData".toUTF8`, which the kernel cannot evaluate, so there is no `decide` example here. -/
+
+/-! ## the full clause -/
+
+/-- every message kind: the decoder loop over a message whose fields were arranged by an ARBITRARY rank and
+    extended by unknown extras equals the loop over the canonical field list — the generalisation of
+    `pbf_decode_any_rank_*` + `pbf_unknown_fields_skipped` the per-kind lemmas are built on -/
+theorem pbf_decode_arranged {σ : Type} (step : σ → Field → Option σ) (known : Field → Bool)
+    (hs : ∀ s f, known f = false → step s f = some s) (hc : CommutesOn step (fun _ => True))
+    (ch : PbfSpec.Choices) (k : Nat) (fs : List Field) (s : σ) (he : ∀ e ∈ ch.extras k, known e = false) :
+    decodeMsg step s (PbfSpec.arrange ch k fs) = decodeMsg step s fs :=
+  decodeMsg_arrange' step known hs hc ch k fs s he
+
+/-- `pbf_decode_spec`: ∀ legal choice vectors `ch`, ∀ data sets `(h, os)` representable under `ch` and within the
+    format limits: the Reader (`PBFParser::run` + `decode_blob` + `decode_header_block` +
+    `PBFPrimitiveBlockDecoder`, any `inflate` — raw blobs do not use it) returns exactly the header and the objects
+    the file describes.
+    `ChoicesOk` (Lemmas/PbfSpecBase): 0 < granularity, date_granularity < 2^31; |lat/lon offset| ≤ 2^61; padding
+    strings ≤ 1024 bytes; per message kind the extras are well-formed fields the kind's `switch` has no case for.
+    `Representable` (Lemmas/PbfSpecFile, `ObjRep` in PbfSpecBase): C01's value domain, coordinates / timestamps on
+    the granularity grids (`CoordRep`, `StampRep`), invisible nodes without location, ways with locations for all
+    nodes or none, delta chains within sint64 (`DeltaRep`), header boxes with ordered valid corners, no changesets.
+    `Fits`: every BlobHeader ≤ 64 KiB, every Blob and its payload ≤ 32 MiB. -/
+theorem pbf_decode_spec (inflate : Nat → Bytes → Nat → Option Bytes) (ch : PbfSpec.Choices) (h : Header) (os : List Object)
+    (hch : ChoicesOk ch) (hrep : Representable ch h os) (hfit : Fits ch h os) :
+    decodeFile inflate {} (PbfSpec.encode ch h os) = some (h, os) :=
+  spec_file inflate ch h os hch hrep hfit
+
+/-- a choice vector using every freedom: granularity 1000 with offsets, date granularity 500, dense nodes, defaults
+    omitted, version −1, a seeded rank, unknown extras of all four wire types in every message, indexdata, table
+    padding and duplicates, blocks of 2 objects, groups of 1 -/
+def exChoices : PbfSpec.Choices where
+  dense := true
+  granularity := 1000
+  latOffset := 500
+  lonOffset := -300
+  dateGranularity := 500
+  omitDefaults := true
+  versionMinusOne := true
+  rank := PbfSpec.rankOfSeed 7
+  extras := fun k => if k < 13 then PbfSpec.extrasOfSeed 3 k else []     -- the 13 message kinds that exist
+  indexdata := some [1, 2, 3]
+  tablePrefix := [[0x70]]
+  tableDup := true
+  split := [2]
+  blockRest := 2
+  groupSize := 1
+
+def exHeader : Header := { generator := [0x67], boxes := [(⟨-1301, -5⟩, ⟨7, 9⟩)], multipleVersions := true }
+
+def exObjects : List Object :=
+  [.node { id := 1, version := 0, user := [0x75], tags := [⟨[0x6b], [0x76]⟩] } ⟨-3, 55⟩,
+   .node { id := -5, version := 2, visible := false, uid := 7, timestamp := 3 } Location.undefined,
+   .way { id := 9223372036854775807, uid := 2147483647 } [⟨1, ⟨17, 25⟩⟩, ⟨-5, ⟨-23, 5⟩⟩],
+   .relation { id := 3, changeset := 4294967295, timestamp := 4294967295 } [⟨1, 5, [0x72]⟩, ⟨3, -5, []⟩]]
+
+theorem exExtras_ok : ∀ k, k < 13 → ∀ e ∈ PbfSpec.extrasOfSeed 3 k, e.WF ∧ knownOf k e = false := by decide
+
+/-- non-vacuity of the three hypotheses of `pbf_decode_spec` … -/
+example : ChoicesOk exChoices where
+  gran := by decide
+  dgran := by decide
+  latOff := by decide
+  lonOff := by decide
+  pad := by decide
+  extrasWF := by
+    intro k e he
+    by_cases hk : k < 13
+    · simp only [exChoices, hk, ↓reduceIte] at he; exact (exExtras_ok k hk e he).1
+    · simp [exChoices, hk] at he
+  extrasUnknown := by
+    intro k e he
+    by_cases hk : k < 13
+    · simp only [exChoices, hk, ↓reduceIte] at he; exact (exExtras_ok k hk e he).2
+    · simp [exChoices, hk] at he
+
+example : Representable exChoices exHeader exObjects where
+  boxes := by decide +kernel
+  objs := by decide +kernel
+  dense := by decide +kernel
+
+example : Fits exChoices exHeader exObjects where
+  header := by decide +kernel
+  blocks := by decide +kernel
+
+/-- … and the conclusion on that file, evaluated through both models -/
+example : decodeFile noInflate {} (PbfSpec.encode exChoices exHeader exObjects) = some (exHeader, exObjects) := by
+  decide +kernel
+
+/-- the grids matter: a latitude off the granularity grid does not come back (so `Representable` is not idle) -/
+example : decodeFile noInflate {} (PbfSpec.encode exChoices exHeader [.node { id := 1 } ⟨-3, 50⟩]) ≠
+    some (exHeader, [.node { id := 1 } ⟨-3, 50⟩]) := by
+  decide +kernel
 
 end Osmium.Pbf
